@@ -381,7 +381,8 @@ def run(ctx):
                 res = run_config(hx, caps, "same", "full", names, 120, "wit")
                 vs, _, _, _ = analyse(M, res, {})
                 for v in vs:
-                    if v["call"] in (u["call"], u["call"].replace("64", "")):
+                    same = (u["call"], u["call"].replace("64", "")) if u["call"] != "janet-file-flags" else ("fopen", "fopen64")
+                    if v["call"] in same:
                         v["static"] = dict(function=u["fn"], call=u["call"], needs=capnames(u["need"]), entries=u["entries"])
                         report(v)
                         found = True
